@@ -226,6 +226,10 @@ func newTunnelChannel(stream tunnelStreamClient, tunnelMetadata metadata.MD, ser
 	select {
 	case <-c.awaitSettings:
 	case <-ctx.Done():
+		// The receive loop may still be about to record the negotiated
+		// settings. Mark the channel as closed before handing it out, so
+		// that no new stream ever reads them on this path.
+		c.close(ctx.Err())
 	}
 
 	return c
